@@ -45,6 +45,10 @@ pub enum Op {
     Read(usize),
     /// remove_object(uuid) on replica r, uuid = "obj" (n = 0) or the element id "x" (n = 1)
     ObjRemove(usize, usize),
+    /// saved = stage() on replica r (the export is kept by the harness; nothing changes in the replica)
+    StageSave(usize),
+    /// replay_stage(saved) on replica r (the export saved last on that replica)
+    StageReplay(usize),
 }
 
 impl Op {
@@ -66,7 +70,9 @@ impl Op {
             | Op::ObjPut(r, _)
             | Op::ObjDel(r)
             | Op::Read(r)
-            | Op::ObjRemove(r, _) => *r,
+            | Op::ObjRemove(r, _)
+            | Op::StageSave(r)
+            | Op::StageReplay(r) => *r,
         }
     }
     pub fn short(&self) -> String {
@@ -88,6 +94,8 @@ impl Op {
             Op::ObjDel(r) => format!("objdel({})", r),
             Op::Read(r) => format!("read({})", r),
             Op::ObjRemove(r, n) => format!("objremove({},{})", r, n),
+            Op::StageSave(r) => format!("stagesave({})", r),
+            Op::StageReplay(r) => format!("stagereplay({})", r),
         }
     }
 }
@@ -127,6 +135,8 @@ pub struct Replica {
     pub head_views: Vec<Value>,
     /// (only with World.track) view + tree dumps at the last moment nothing was staged
     pub last_clean: Option<Value>,
+    /// stage export saved by Op::StageSave
+    pub saved_stage: Option<Option<Value>>,
 }
 
 #[derive(Clone, Debug, PartialEq)]
@@ -203,6 +213,7 @@ impl World {
                 dead: None,
                 head_views: vec![],
                 last_clean: None,
+                saved_stage: None,
             });
         }
         World {
@@ -427,6 +438,25 @@ impl World {
                 let uuid = if *n == 0 { "obj" } else { "x" };
                 call(&label, || m.remove_object(uuid).map(|x| x.unwrap_or_default()).map_err(|e| e.to_string()))
             }
+            Op::StageSave(_) => {
+                let m = &self.reps[r].m;
+                match call(&label, || m.stage().map_err(|e| e.to_string())) {
+                    Ok(Ok(s)) => {
+                        let d = s.as_ref().map(|v| sha_hex(v.to_string().as_bytes())[..8].to_string()).unwrap_or_else(|| "none".into());
+                        self.reps[r].saved_stage = Some(s);
+                        Ok(Ok(d))
+                    }
+                    Ok(Err(e)) => Ok(Err(e)),
+                    Err(p) => Err(p),
+                }
+            }
+            Op::StageReplay(_) => {
+                let Some(s) = self.reps[r].saved_stage.clone() else {
+                    return OpOut::NotEnabled("no saved stage".into());
+                };
+                let m = &self.reps[r].m;
+                call(&label, || m.replay_stage(&s).map(|_| String::new()).map_err(|e| e.to_string()))
+            }
             Op::Read(_) => {
                 let m = &self.reps[r].m;
                 call(&label, || m.read(None).map(|d| sha_hex(Value::Object(d).to_string().as_bytes())[..8].to_string()).map_err(|e| e.to_string()))
@@ -626,6 +656,9 @@ pub fn replica_state(rep: &Replica, opts: &KeyOpts) -> Value {
         }
         if opts.heads {
             v["heads"] = json!(rep.heads);
+        }
+        if let Some(s) = &rep.saved_stage {
+            v["saved_stage"] = s.clone().unwrap_or(Value::Null);
         }
         if opts.acache {
             let mut ac = m.verif_array_cache_keys();
